@@ -80,7 +80,10 @@ pub fn check(cx: &Cx, rep: &mut Report) {
         }
         // R2b: an `interval` timer never waits for the mailbox, so also on a busy actor every expiry before the
         // actor stops accepting is delivered: the number of deliveries is determined by the clock alone
-        if t.kind == "interval" && af.incs.len() == 1 && !af.failed() && t.dur > 0 && af.stream_end.is_none() && af.decl.map(|d| !d.entry.stream()).unwrap_or(false) {
+        // (after restarts: a timer registered in the last incarnation - typically in its started() - is subject to
+        // the same count; seeded defect C15r10 aborted exactly those)
+        let in_last_inc = af.incs.len() == 1 || af.incs.last().map(|i| t.reg >= i.s_in).unwrap_or(false);
+        if t.kind == "interval" && in_last_inc && !af.failed() && t.dur > 0 && af.stream_end.is_none() && af.decl.map(|d| !d.entry.stream()).unwrap_or(false) {
             // the instant from which nothing more is accepted: the first accepted stop request / last drop
             let close_stamp = af.stops.iter().filter(|s| s.accepted).map(|s| s.b).min().into_iter().chain(af.arc_gone_at).min();
             let terminated = af.t_final().is_some() && af.task_end.is_some();
@@ -93,6 +96,9 @@ pub fn check(cx: &Cx, rep: &mut Report) {
                 let hi = t_in_vt.saturating_sub(t.reg_vt) / t.dur; // expiries at or before stopped() began
                 // a stop accepted while earlier ticks are still queued does not lose them (drain barrier)
                 rep.premise("C10.R2.interval_count_on_busy_actor");
+                if af.incs.len() > 1 {
+                    rep.premise("C10.R2.interval_count_after_restart");
+                }
                 let got = deliveries.len() as u64;
                 if t.reg_vt <= close_vt && (got < lo || got > hi + 1) {
                     rep.fail(P, "R2", "interval_count", format!("interval timer {} registered at t={} with period {} on actor tag {} that stopped accepting at t={close_vt}: {got} deliveries, expected between {lo} and {}", t.id, t.reg_vt, t.dur, af.tag, hi + 1), vec![t.reg, cs]);
@@ -123,8 +129,8 @@ pub fn check(cx: &Cx, rep: &mut Report) {
                 }
             }
         }
-        // R2: exact schedule on an otherwise idle, single-incarnation, fault-free actor
-        let idle = af.incs.len() == 1
+        // R2: exact schedule on an otherwise idle, fault-free actor, for timers registered in its last (or only) incarnation
+        let idle = in_last_inc
             && !af.failed()
             && ix.actors[&t.actor].timeline.iter().all(|x| match x {
                 TL::Inv(j) => ix.invs[*j].out.map(|o| o.1 == ix.invs[*j].it).unwrap_or(false),
@@ -136,6 +142,9 @@ pub fn check(cx: &Cx, rep: &mut Report) {
             // the actor is alive (accepting) strictly before t_end
             let t_end = af.t_final().map(|t| ix.ev[t.0 as usize].vt).unwrap_or(last_vt);
             rep.premise("C10.R2.exact_schedule");
+            if af.incs.len() > 1 {
+                rep.premise("C10.R2.exact_schedule_after_restart");
+            }
             let mut expect = vec![];
             let mut k = 1u64;
             if t.dur == 0 && periodic {
